@@ -137,7 +137,12 @@ def run(rep):
         olines.append('c07.obs %s %s %d %d %s %s' % (name, fset, 'ULT'.index(target), weighted, f2hex(kw.get('in2polarization', 0)), B.tokens(k2, m)))
         ometa.append((name, fset, target, v, kw, m))
         rep.hist('obs', name)
-    for line, (name, fset, target, v, kw, m), o in zip(olines, ometa, common.run_driver(olines)):
+    try:
+        oout = common.run_driver(olines)
+    except common.ModelUnavailable as ex:
+        oout = []
+        broken.append(('model-unavailable', 'all', str(ex)[:300], None, None, {}, {}))
+    for line, (name, fset, target, v, kw, m), o in zip(olines, ometa, oout):
         rep.case('observable', (name, fset, line[-30:]), sample=dict(observable=name, set=fset, target=target, value=v) if name in ('_BTSA', '_ALUI') else None)
         if isinstance(v, str) or o in ('none', 'bad-op'):
             if not (isinstance(v, str) and o == 'none'):
